@@ -324,6 +324,7 @@ var c08Alphabet = []string{
 	"advance 4s", "advance 12s", "advance 31s",
 	"isolate am0", "isolate am2", "cut am0<->am1", "heal all links",
 	"crash am0", "crash am1",
+	"the receiver becomes unreachable from am0 and am1 (recoverable errors), still reachable from the last instance",
 }
 
 type c08Cfg struct {
@@ -433,6 +434,15 @@ func c08Run(t *testing.T, cfg c08Cfg, h []int) (res seqx.Result) {
 					break
 				}
 				m.crash(i)
+				faulty = true
+			case 12:
+				if cfg.n < 2 || !cfg.faults {
+					res.Skip = true
+					break
+				}
+				for i := 0; i < cfg.n-1; i++ {
+					m.inst[i].env.setMode("", mRecoverable)
+				}
 				faulty = true
 			}
 			if res.Skip {
